@@ -131,10 +131,15 @@ impl EventIOProcessor for ScxmlEventIOProcessor {
                 global_lock.enqueue_internal(event);
                 true
             }
-            SCXML_TARGET_PARENT => {
-                let sid = global_lock.parent_session_id.unwrap();
-                self.send_to_session(&mut global_lock, sid, event)
-            }
+            SCXML_TARGET_PARENT => match global_lock.parent_session_id {
+                Some(sid) => self.send_to_session(&mut global_lock, sid, event),
+                None => {
+                    // Not invoked by some other session.
+                    error!("Send target '{}': session has no parent.", target);
+                    global_lock.enqueue_internal(Event::error_communication(&event));
+                    false
+                }
+            },
             _ => {
                 // W3C: If the sending SCXML session specifies a session that does not exist or is inaccessible,
                 //      the SCXML Processor must place the error "error.communication" on the internal event queue of the sending session.
